@@ -153,7 +153,20 @@ def user_alphabets(draw):
 
 @st.composite
 def warm_call(draw):
-    k = draw(st.integers(0, 11))
+    k = draw(st.integers(0, 12))
+    if k == 12:
+        # a plot made earlier in the same process (figure closed afterwards by the harness)
+        name = draw(st.sampled_from(["show_phaseDiagramPlot", "show_uverskyPlot", "show_linearNCPR", "show_linearFCR"]))
+        if name.startswith("show_linear"):
+            return ["plot:" + name, {"blobLen": draw(st.sampled_from([1, 5, 6]))}]
+        kw = {}
+        if draw(st.booleans()):
+            kw["xLim"] = draw(st.sampled_from([0.2, 0.3, 0.5, 1]))
+        if draw(st.booleans()):
+            kw["yLim"] = draw(st.sampled_from([0.2, 0.3, 0.5, 1]))
+        if draw(st.booleans()):
+            kw["label"] = "x"
+        return ["plot:" + name, kw]
     if k <= 2:
         return [draw(st.sampled_from(_NOARG)), None]
     if k == 3:
@@ -168,12 +181,16 @@ def warm_call(draw):
         return ["get_kappa_X", [g1, g2] if g2 and draw(st.booleans()) else [g1]]
     if k == 7:
         if draw(st.booleans()):
-            return ["phospho_cycle", [draw(st.integers(1, 4)), draw(st.booleans())]]
+            return ["phospho_cycle", [draw(st.sampled_from([1, 2, 3, 4, 99])), draw(st.booleans())]]
         return ["set_phosphosites", [draw(st.lists(st.integers(-2, 40), min_size=1, max_size=4))]]
     if k == 8:
         if draw(st.booleans()):
             return ["get_reduced_alphabet_sequence", [20, draw(user_alphabets())]]
         return ["get_reduced_alphabet_sequence", [draw(st.sampled_from([2, 3, 5, 8, 12, 18]))]]
+    if k == 9 and draw(st.integers(0, 3)) == 0:
+        # a request that fails (one-letter alphabet: base-1 entropy) -- the NEXT request must still be answered correctly
+        one = draw(st.sampled_from(list(AA)))
+        return ["get_linear_complexity", ["WF", draw(st.sampled_from([20, 8, 2])), {a: one for a in AA}, draw(st.integers(1, 6)), 1, 3]]
     if k == 9:
         return ["get_linear_complexity", [draw(st.sampled_from(["WF", "LC", "LZW"])), 20, draw(user_alphabets()) if draw(st.booleans()) else {},
                                           draw(st.integers(1, 10)), draw(st.integers(1, 4)), draw(st.integers(1, 4))]]
@@ -192,7 +209,7 @@ def warmups(max_calls=4):
 
 @st.composite
 def long_charged(draw, min_len=129, max_len=400):
-    n = draw(st.one_of(st.integers(min_len, max_len), st.sampled_from([129, 130, 200, 256, 257, 260, 300])))
+    n = draw(st.one_of(st.integers(min_len, max_len), st.sampled_from([127, 128, 129, 130, 200, 255, 256, 257, 260, 300, 511, 512, 513])))
     n = max(min_len, min(max_len, n))
     kind = draw(st.sampled_from(["homopolymer", "diblock", "alternating", "random-charged", "mostly-charged", "two-letter"]))
     if kind == "homopolymer":
